@@ -12,6 +12,7 @@ from PIL import Image
 import torchvision.transforms.functional as F
 
 from kappadata.datasets.kd_dataset import KDDataset
+from kappadata.transforms.base.kd_stochastic_transform import KDStochasticTransform
 
 K = 128
 
@@ -116,10 +117,13 @@ def make_pair(io, c, h, w, style, data_seed):
     return Image.fromarray(arr, mode="RGB"), Image.fromarray(m.astype(np.int32), mode="I"), m
 
 
-def decode_image(img, normed=False):
+def decode_image(img, normed=False, solarized=False):
     """-> (codes int64 (H,W) with 0 = padding, ok flag: every pixel is an exact code or a padding value)"""
     if torch.is_tensor(img):
         v = img[0].detach().to(torch.float64).numpy()
+        if solarized:
+            # solarize(threshold=1.) maps every code v >= 1 to 1 - v (< 0, so it is inverted at most once); padding 0 stays
+            v = np.where(v < 0, 1.0 - v, v)
         if normed:
             # KDImageRangeNorm maps v -> 2v-1 (exact for the integer codes); padding added afterwards is 0 -> 0.5
             v = (v + 1.0) / 2.0
@@ -185,6 +189,24 @@ class PairDataset(KDDataset):
 
     def __len__(self):
         return len(self.xs)
+
+
+class DrawingImageOnly(KDStochasticTransform):
+    """harness-side stochastic *image-only* transform (the role colour jitter / blur / noise play in a segmentation
+    pipeline): consumes `n_draws` numbers of the injected generator and perturbs only the channels that do not carry the
+    coordinate code, so the geometry stays decodable. What it exercises is the wrapper's bookkeeping of the shared
+    per-sample generator, not this class."""
+
+    def __init__(self, n_draws=1, **kwargs):
+        super().__init__(**kwargs)
+        self.n_draws = n_draws
+
+    def __call__(self, x, ctx=None):
+        vals = [float(self.rng.random()) for _ in range(self.n_draws)]
+        if torch.is_tensor(x) and x.shape[0] > 1:
+            x = x.clone()
+            x[1:] = (x[1:] + vals[0]) % 1.0
+        return x
 
 
 # --------------------------------------------------------------------------------------------- erase / mask analysis
